@@ -404,6 +404,14 @@ pub fn family_cond(_tier: Tier) -> Vec<PProblem> {
             }
         }
     }
+    // three untagged reloads, two of them equal, in every order of the list: the equal ones differ by their index only
+    for (oi, order) in [[4usize, 0, 0], [0, 4, 0], [0, 0, 4]].iter().enumerate() {
+        for n in [5usize, 6] {
+            let mut s = shift(ShiftKind::Closed);
+            s.reloads = order.iter().map(|loc| PReload { loc: *loc, duration: 4., times: vec![], tag: None, resource_id: None }).collect();
+            out.push(base(format!("cond/reload-untagged3/o{oi}/n{n}"), deliveries(n), vec![vehicle_type("v", 1, &[2], vec![s])]));
+        }
+    }
     // shared reload resource: two vehicles draw from one stock
     for n in [5usize, 6] {
         for stock in [4i64, 6] {
